@@ -7,7 +7,8 @@
 (***************************************************************************)
 EXTENDS PSMachine, Json, CSV
 
-CONSTANTS Tier,          \* "quick" | "thorough"
+CONSTANTS OpSet,         \* "data": the data operators (C02); "hostile": every operator incl. control, file and CIDInit (C01)
+          Tier,          \* "quick" | "thorough"
           OutFile, BaseFile
 
 P(k) == TwoPow(k)
@@ -76,9 +77,15 @@ OpArity(op) == CASE op \in {"mark", "[", "<<", "count", "currentdict", "currentf
                           "definefont", "findresource"} -> 2
                [] op \in {"copy", "index", "put", "getinterval", "putinterval", "defineresource", "]",
                           "cleartomark"} -> 3
+               [] op \in {"exit", "stop", "begincmap", "endcmap"} -> 0
+               [] op \in {"exec", "loop", "bind", "eexec", "closefile", "usecmap"} -> 1
+               [] op \in {"if", "repeat", "forall", "readstring"} -> 2
+               [] op = "ifelse" -> 3
+               [] op = "for" -> 4
+               [] op \in CIDInitOps -> (IF \E k \in Kinds : op = "begin" \o k THEN 1 ELSE 3)
                [] OTHER -> 4      \* roll, >>
 
-OpSel == DataOps
+OpSel == IF OpSet = "data" THEN DataOps ELSE AllOps \cup CIDInitOps
 
 \* Operand tuples are picked in stages (operator, length, then one index per
 \* position from the bottom of the stack) so that TLC's workers share the work.
@@ -92,7 +99,11 @@ Cands(op, L, p) ==
     ELSE {0 - i : i \in 1..NS}
 Val(x) == IF x < 0 THEN PoolS[0 - x] ELSE Pool[x]
 
-Dst0(e) == IF e = 1 THEN <<SysId, UserId, PD2b>> ELSE FreshDictStack
+Dst0(e) == IF OpSet = "hostile" THEN <<SysId, UserId, CIDInitId>>
+           ELSE IF e = 1 THEN <<SysId, UserId, PD2b>> ELSE FreshDictStack
+\* hostile runs of CIDInit procedures happen inside begincmap (env 1) and outside (env 0)
+Prog(op, e) == IF OpSet = "hostile" /\ e = 1 /\ op \in CIDInitOps THEN <<XNameV("begincmap"), XNameV(op)>>
+               ELSE <<XNameV(op)>>
 
 VARIABLES s, stim, phase
 vars == <<s, stim, phase>>
@@ -113,26 +124,26 @@ PickArg == /\ phase = "arg" /\ Len(stim.idx) < stim.len
            /\ UNCHANGED <<phase, s>>
 Start == /\ phase = "arg" /\ Len(stim.idx) = stim.len
          /\ phase' = "run"
-         /\ s' = [FreshState(<<XNameV(stim.op)>>, 0) EXCEPT !.ost = [j \in 1..stim.len |-> Val(stim.idx[j])],
+         /\ s' = [FreshState(Prog(stim.op, stim.env), 0) EXCEPT !.ost = [j \in 1..stim.len |-> Val(stim.idx[j])],
                                                             !.dst = Dst0(stim.env)]
          /\ UNCHANGED stim
 Run == /\ phase = "run" /\ s.status = "running"
-       /\ s' = Step(s)
+       /\ s' = IF s.nops > 60 THEN Skip(s) ELSE Step(s)
        /\ UNCHANGED <<stim, phase>>
 Next == PickOp \/ PickLen \/ PickArg \/ Start \/ Run
 
 Delta(h) == h.c
 
-Vector == [op |-> stim.op,
+Vector == [op |-> stim.op, prog |-> Prog(stim.op, stim.env),
            init |-> [j \in 1..Len(stim.idx) |-> Val(stim.idx[j])], dst0 |-> Dst0(stim.env),
            status |-> s.status, errs |-> s.errs, ost |-> s.ost, dst |-> s.dst,
            heap |-> Delta(s.heap), nheap |-> s.heap.n, nops |-> s.nops]
 
-Emit == (phase = "run" /\ s.status \in {"done", "error"}) => CSVWrite("%1$s", <<ToJson(Vector)>>, OutFile)
+Emit == (phase = "run" /\ s.status \in (IF OpSet = "hostile" THEN {"done", "error", "skip"} ELSE {"done", "error"})) => CSVWrite("%1$s", <<ToJson(Vector)>>, OutFile)
 ASSUME JsonSerialize(BaseFile, [heap |-> Heap0, nfixed |-> NFixed])
 
 \* design-level invariants, evaluated in every state of every behaviour
 Inv == /\ StackBounded(s) /\ DictStackBounded(s) /\ DepthBounded(s) /\ DictStackBase(s)
        /\ s.status = "error" => s.errs # {}
-       /\ s.nops <= 4
+       /\ s.nops <= 62
 =============================================================================
